@@ -2,6 +2,7 @@ import Litep2pVerif.Proofs.Service.KeepAliveReach
 import Litep2pVerif.Proofs.Node.Wiring
 import Litep2pVerif.Generated.Consts
 import Litep2pVerif.Proofs.Conn.Permits
+import Litep2pVerif.Proofs.Conn.Outbound
 /-!
 # C09 — Idle connections close after the keep-alive timeout, busy ones are kept
 
@@ -284,8 +285,8 @@ connection task's side of `held_not_closed`, which the C09 adapter used to mimic
    multistream-select has said which protocol it is for.
 2. That entry stays, with its permit, across every other transition of the system — other substreams
    being accepted, negotiated, failing; commands; every protocol downgrading or dropping its handle;
-   deliveries; protocols shutting down — until its own negotiation ends (or the loop has returned for
-   another reason): and as long as it is there the command channel has a strong sender, so
+   deliveries; protocols shutting down — until its own negotiation ends (`TLabel.endsNeg k`: success under a main or
+   a fallback name, failure or timeout; or the loop has returned for another reason): and as long as it is there the command channel has a strong sender, so
    `protocol_set.next()` cannot yield `None`: the idle exit is disabled.
 3. When its negotiation succeeds for a live protocol `p` the permits travel with the `SubstreamOpened`
    message (`stage = queued`).
@@ -298,7 +299,7 @@ theorem inbound_negotiation_holds_connection :
       (Conn.tstep s .accept).loop.exited = none) ∧
     (∀ (s : Conn.TLoop) (ls : List Conn.TLabel) (k : Nat) (x : Conn.Sub),
       s.subs[k]? = some x → x.stage = .negotiating →
-      (∀ l ∈ ls, (∀ p, l ≠ .negOk k p) ∧ l ≠ .negFail k) →
+      (∀ l ∈ ls, l.endsNeg k = false) →
       (Conn.trun s ls).loop.exited = none →
         (Conn.trun s ls).subs[k]? = some x ∧ 0 < (Conn.trun s ls).strong ∧
         (Conn.trun s ls).idleEnabled = false ∧
@@ -314,7 +315,7 @@ theorem inbound_negotiation_holds_connection :
   · have := Conn.accept_with_permit s hr hs
     exact ⟨this.1, this.2.1⟩
   · have h1 := Conn.trun_negotiating ls s k x hk hx hls hrun
-    have h2 := Conn.busy_strong_pos _ x (List.mem_of_getElem? h1) (Or.inl hx)
+    have h2 := Conn.busy_strong_pos _ x (List.mem_of_getElem? h1) (Or.inr (Or.inl hx))
     exact ⟨h1, h2, Conn.idle_disabled _ h2⟩
   · exact Conn.negOk_queues s k p x hr hk hx ha hrun
   · have h2 := Conn.busy_strong_pos s x hmem hb
@@ -371,11 +372,11 @@ theorem half_closed_substream_holds_connection :
         (Conn.trun s ls).idleEnabled = false ∧
         Conn.tstep (Conn.trun s ls) .idleExit = Conn.trun s ls) := by
   refine ⟨Conn.halfClose_keeps, fun s x hmem hx hka => ?_, fun s ls k x hk hx hka hls => ?_⟩
-  · have h2 := Conn.busy_strong_pos s x hmem (Or.inr ⟨hka, Or.inr (Or.inr hx)⟩)
+  · have h2 := Conn.busy_strong_pos s x hmem (Or.inr (Or.inr ⟨hka, Or.inr (Or.inr hx)⟩))
     exact ⟨h2, Conn.idle_disabled s h2⟩
   · have h1 := Conn.trun_heldHalf ls s k x hk hx hls
     have hka' : Conn.kaOf (Conn.trun s ls).ka x.proto = true := by rw [Conn.trun_ka]; exact hka
-    have h2 := Conn.busy_strong_pos _ x (List.mem_of_getElem? h1) (Or.inr ⟨hka', Or.inr (Or.inr hx)⟩)
+    have h2 := Conn.busy_strong_pos _ x (List.mem_of_getElem? h1) (Or.inr (Or.inr ⟨hka', Or.inr (Or.inr hx)⟩))
     exact ⟨h1, h2, Conn.idle_disabled _ h2⟩
 
 /-- Non-vacuity (the request/response shape): a keep-alive protocol gets an inbound substream, writes its request and
@@ -394,6 +395,62 @@ example :
     s3.subs = [⟨true, some 0, .heldHalf⟩] ∧ s3.strong = 1 ∧ s3.loop.exited = none ∧
     s4.loop.exited = some .ok ∧ s4.loop.ps.log = [.proto 0 .substreamOpened, .proto 0 .closed, .mgr] ∧
     t.loop.exited = some .ok := by decide
+
+/-- **A substream negotiated under a FALLBACK name holds the connection like any other substream of its protocol**
+(model `Model/Conn/Permits.lean`; tied to the real `ProtocolSet::new` / `accept_substream` /
+`report_substream_open` and the real loop in the `tcploop` area: protocols installed with `fb=`, the remote proposing
+`<p>.f<k>`, a remote that only knows a fallback name of what we ask for). The permit rule is per PROTOCOL, whichever
+of its names was negotiated:
+
+1. `ProtocolSet::new` builds the name → keep-alive map from the main names and, for every fallback name, the context
+   of ITS MAIN protocol: every name `(p, f)` of an installed protocol `p` — main (`f = 0`) or fallback — carries
+   `p`'s own keep-alive setting; and `report_substream_open` reports the name to `p`, with the `fallback` field
+   naming it exactly when it is a fallback name (C03 `fallback_reported_as_main` is the same rule on byte strings).
+2. Hence in the loop the negotiated name does not matter: `negOkFb k p f` is `negOk k p`.
+3. An inbound substream negotiated under the `f`-th fallback name of a live protocol `p` goes to `p`'s channel with
+   its permits (`stage = queued`, `proto = p`): the same entry that was accepted.
+4. From then on — in the protocol's channel, held, or held with its write half shut down — a substream of a
+   keep-alive protocol is a strong sender of the command channel in EVERY state in which it exists:
+   `protocol_set.next()` cannot yield `None`, the idle exit is disabled and does nothing, until the protocol drops
+   it (`inbound_negotiation_holds_connection` covers the time before, `half_closed_substream_holds_connection` the
+   schedules after). -/
+theorem fallback_name_substream_holds_connection :
+    (∀ (ka : List Bool) (fbs : List Nat) (p f : Nat), fbs.length = ka.length → p < ka.length → f ≤ fbs.getD p 0 →
+      Conn.nameKa ka fbs (p, f) = some ka[p]? ∧
+      Conn.reportTo fbs (p, f) = (p, if f = 0 then none else some (p, f))) ∧
+    (∀ (s : Conn.TLoop) (k p f : Nat), Conn.tstep s (.negOkFb k p f) = Conn.tstep s (.negOk k p)) ∧
+    (∀ (s : Conn.TLoop) (k p f : Nat) (x : Conn.Sub), s.running = true →
+      s.subs[k]? = some x → x.stage = .negotiating → Conn.protoAlive s p = true →
+      (Conn.tstep s (.negOkFb k p f)).loop.exited = none →
+        (Conn.tstep s (.negOkFb k p f)).subs[k]? = some { x with proto := some p, stage := .queued }) ∧
+    (∀ (s : Conn.TLoop) (x : Conn.Sub) (p : Nat), x ∈ s.subs → x.proto = some p → s.ka.getD p false = true →
+      (x.stage = .queued ∨ x.stage = .held ∨ x.stage = .heldHalf) →
+      0 < s.strong ∧ s.idleEnabled = false ∧ Conn.tstep s .idleExit = s) := by
+  refine ⟨fun ka fbs p f hlen hp hf => ⟨Conn.nameKa_eq ka fbs hlen p f hp hf,
+      Conn.reportTo_eq fbs p f (by omega) hf⟩, fun _ _ _ _ => rfl,
+    fun s k p f x hr hk hx ha hrun => Conn.negOk_queues s k p x hr hk hx ha hrun, fun s x p hmem hpr hka hst => ?_⟩
+  have hk : Conn.kaOf s.ka x.proto = true := by rw [hpr]; exact hka
+  have h2 := Conn.busy_strong_pos s x hmem (Or.inr (Or.inr ⟨hk, hst⟩))
+  exact ⟨h2, Conn.idle_disabled s h2⟩
+
+/-- Non-vacuity (the C09-d1 shape): protocol 0 (keep-alive, fallback names `(0,1)`, `(0,2)`) and protocol 1
+(ping-like, one fallback name). The map of `ProtocolSet::new` gives `(0,2)` the setting of protocol 0 and `(1,1)` that
+of protocol 1, and reports them to 0 and 1 with the name. The remote opens a substream and negotiates `(0,2)`; both
+protocols let go of the connection: the substream's lifetime permit is the only strong sender left and the idle exit
+does nothing, as often as it is tried, until protocol 0 drops the substream. Negotiated under the ping-like protocol's
+fallback name instead, the same history ends with the connection closed. -/
+example :
+    let s1 := Conn.trun (Conn.tinit [true, false] 4) [.recv 0, .recv 1, .accept, .negOkFb 0 0 2, .recv 0]
+    let s2 := Conn.trun s1 [.downgrade 0, .downgrade 1, .idleExit, .idleExit]
+    let s3 := Conn.trun s2 [.dropSub 0, .idleExit]
+    let t := Conn.trun (Conn.tinit [true, false] 4)
+      [.recv 0, .recv 1, .accept, .negOkFb 0 1 1, .recv 1, .downgrade 0, .downgrade 1, .idleExit]
+    Conn.nameKa [true, false] [2, 1] (0, 2) = some (some true) ∧ Conn.nameKa [true, false] [2, 1] (1, 1) = some (some false) ∧
+    Conn.reportTo [2, 1] (0, 2) = (0, some (0, 2)) ∧ Conn.reportTo [2, 1] (1, 0) = (1, none) ∧
+    Conn.nameKa [true, false] [2, 1] (0, 3) = none ∧
+    s1.subs = [⟨true, some 0, .held⟩] ∧ s1.loop.ps.log = [.proto 0 .substreamOpened] ∧
+    s2.strong = 1 ∧ s2.loop.exited = none ∧ s2.subs = [⟨true, some 0, .held⟩] ∧
+    s3.loop.exited = some .ok ∧ t.loop.exited = some .ok := by decide
 
 /-- The default timeout (regenerated from `src/transport/mod.rs`) is positive, so a fresh
 connection always gets a grace period. -/
@@ -466,3 +523,4 @@ end Litep2pVerif.Props.C09.Wiring
 
 #print axioms Litep2pVerif.Props.C09.Wiring.configured_keep_alive_reaches_service
 #print axioms Litep2pVerif.Props.C09.Wiring.keep_alive_flag_by_protocol_kind
+#print axioms Litep2pVerif.Props.C09.fallback_name_substream_holds_connection
